@@ -142,6 +142,7 @@ func init() {
 			guard(r, func() { ruleRowDelete(r) }) // "absent if nothing was stored since the row was inserted": deletes sweep every column
 			guard(r, func() { foundation(r) })
 			guard(r, func() { ruleFootprint(r, "E.footprint", footSel("(column.rw", "(column.rd", "(column.Row)."), 40) })
+			guard(r, func() { ruleMergeReentrant(r) }) // a merge that decodes into state shared by all blocks stores another row's value
 		}})
 	register(&PropSpec{ID: "C02",
 		Explanation: "Atomicity — structural part. (C02.query) path rules over Collection.Query/rollback/commit/reset: error edge ⇒ rollback only, nil edge ⇒ commit only, transaction released, buffers dropped on every exit; (C02.effects) who-may-call over the context graph of the lockset walk: every Apply body and every logger/recorder append is reachable only below Txn.commit (or index back-fill); (C02.isolation) no bit of the shared fill list is set outside commit; (C02.release) failing inserts free their offset and leave no marker, rollback releases the offsets of successful inserts; (C02.readers) no reading API decodes a transaction buffer." + staticNote,
@@ -242,6 +243,7 @@ func init() {
 			guard(r, func() { foundation(r) })
 			guard(r, func() { ruleFootprint(r, "E.footprint", footSel("(*column.Collection).Replay", "(*column.Collection).Query"), 2) })
 			guard(r, func() { ruleWireGrammar(r) })
+			guard(r, func() { ruleEmitOnce(r) }) // a commit that is applied but not emitted never reaches the replica
 		}})
 	register(&PropSpec{ID: "C07",
 		Explanation: "Restore reproduces the collection — structural part. (C07.abs) offset-kind analysis of every Snapshot implementation, the state writer and PutBitmap: absolute offsets into the buffer, relative into per-block storage; (C07.count) the announced buffer count and the buffers written use one predicate; (C13.whole) readState applies each block through its own transaction and only when the block was read completely; (C11.markers) insert markers rebuild the fill list and the count; (U.defs) block arithmetic." + staticNote,
@@ -422,6 +424,7 @@ func init() {
 			guard(r, func() { ruleRegistryLists(r) })
 			guard(r, func() { foundation(r) })
 			guard(r, func() { ruleFootprint(r, "E.footprint", footSel("(*column.Txn).Ascend", "(*column.Collection).CreateSortIndex", "(*column.Collection).Query"), 3) })
+			guard(r, func() { ruleStorageArms(r) }) // the sorted index sees a string merge only through the Put that Swap* rewrites it into
 		}})
 	register(&PropSpec{ID: "C17",
 		Explanation: "Rows expire only after their deadline — structural part only (all timing is not applicable). (C17.guard) edge-dominance in the cleanup: DeleteAt(row) only under ok ∧ now.After(deadline); ExpiresAt/TTL report a deadline only when stored and non-zero; selection With(expire); (C17.write) writers store now+ttl or 0, Extend is a queued merge; (C17.wiring) expire column created at construction, one cleanup goroutine with the configured interval that stops on close; (C09.queue) merge accessors queue deltas." + staticNote,
